@@ -249,6 +249,13 @@ FAMILY = {
         "thorough": dict(Deposits="{0}", QosSet="{1}", Caps="{3}", Timeouts="{2, 3}", Freqs="{0, 3}", Totals="{2, 3}",
                          Dts="{1}", Thresholds="{1}", Kinds='{"valid", "bad"}', MaxHeight=7, MaxCtx=1, MaxBatch=3),
     },
+    "restart": {
+        "module": "MC_restart", "extra": "  WithRestart <- C_WithRestart\n",
+        "quick": dict(Deposits="{0}", QosSet="{1}", Caps="{3}", Timeouts="{1, 2}", Freqs="{0}", Totals="{1, 2}",
+                      Dts="{1}", Thresholds="{1}", Kinds='{"valid"}', MaxHeight=4, MaxCtx=1, MaxBatch=3),
+        "thorough": dict(Deposits="{0}", QosSet="{1}", Caps="{3}", Timeouts="{1, 2}", Freqs="{0, 3}", Totals="{1, 2}",
+                         Dts="{1}", Thresholds="{1}", Kinds='{"valid", "bad"}', MaxHeight=6, MaxCtx=1, MaxBatch=3),
+    },
     "money": {
         "module": "MC_money",
         "quick": dict(Deposits="{0}", QosSet="{1}", Caps="{1, 3}", Timeouts="{1}", Freqs="{0}", Totals="{2}",
@@ -259,10 +266,10 @@ FAMILY = {
 }
 
 PROP_FAMILIES = {
-    "C01": ["money"], "C02": ["money", "lifecycle", "params"], "C03": ["binding", "money"], "C04": ["money", "lifecycle", "params"],
+    "C01": ["money", "restart"], "C02": ["money", "lifecycle", "params"], "C03": ["binding", "money"], "C04": ["money", "lifecycle", "params"],
     "C05": ["binding", "lifecycle"], "C06": ["money"], "C07": ["money"], "C08": ["lifecycle", "params"],
-    "C09": ["lifecycle"], "C10": ["lifecycle", "params"], "C11": ["lifecycle", "params"], "C12": ["lifecycle"],
-    "C13": ["money"], "C14": ["binding", "money", "params"], "C15": ["binding"], "C16": ["lifecycle", "params"],
+    "C09": ["lifecycle", "restart"], "C10": ["lifecycle", "params", "restart"], "C11": ["lifecycle", "params", "restart"], "C12": ["lifecycle"],
+    "C13": ["money"], "C14": ["binding", "money", "params"], "C15": ["binding"], "C16": ["lifecycle", "params", "restart"],
     "C19": ["money"],
 }
 
